@@ -172,6 +172,13 @@ func c10CollectTagVars(f *kit.Func) *c10TagVars {
 		if strings.HasSuffix(o.Name(), ".Key") {
 			flowsToKey[o] = true
 		}
+		if tv.keyFunc && nAssign[o] > 1 {
+			// `key := tag; if key == "" { key = next }; return key`: the variable
+			// accumulates the derivation like a key variable of an inline site;
+			// judged at the returns (not a site of its own)
+			tv.key[o] = true
+			continue
+		}
 		if tv.keyFunc {
 			tv.dispatch[o] = tagOf[o] // tracked for emptiness; judged at the returns
 			continue
@@ -360,6 +367,13 @@ func c10RunTags(c *kit.Ctx, tv *c10TagVars) *c10TagResult {
 		}
 		if target == "" {
 			last = elemOf(e)
+		}
+		// an accumulating key variable is returned: its chain continues the
+		// tags tested (and found empty) before it
+		if o := tv.obj(e); o != nil && tv.key[o] {
+			if ch := s.Get("ch:" + kit.VarID(o)); ch != "" {
+				last = ch
+			}
 		}
 		return strings.Join(append(chain, last), "|")
 	}
